@@ -655,7 +655,24 @@ def check_container(ctx, f, inp, ss, res):
     return None
 
 
+
+def replay_demo(ctx, obj):
+    """replay object written by the driver for a returned FIXED finding: run its demo script (exit 0 = holds)"""
+    import os, re, subprocess
+    from lib import framework
+    m = re.search(r'(findings_demos/[\w.]+\.py)', str(obj.get('witness')))
+    if not m:
+        print('no demo script named in %r' % (obj,))
+        return False
+    p = subprocess.run([framework.PY, os.path.join(framework.VERIF, m.group(1))], capture_output=True, text=True,
+                       timeout=300, env=framework.impl_env())
+    print(p.stdout[-3000:])
+    return p.returncode == 0
+
+
 def replay(ctx, obj, quiet=False):
+    if 'finding' in obj:
+        return replay_demo(ctx, obj)
     if obj.get('kind') != 'field':
         print('replay object names a broken tie, not an input: %s' % json.dumps(obj)[:1500])
         return False
